@@ -14,10 +14,13 @@
 (***************************************************************************)
 EXTENDS Integers, Sequences, FiniteSets, TLC
 
-CONSTANTS Dev_LateHexCheck
+CONSTANTS Dev_LateHexCheck,
+          Dev_LateOutCheck      \* an output path in a directory that does not exist is only noticed when that file is opened,
+                                \* i.e. possibly after the label file was rewritten (the code before it was repaired)
 
 Passes == {"read", "parse", "constants", "compress", "pseudo", "immediates", "encode", "data"}
-Trouble == {"none", "missing-input", "bad-incdir", "hex-syntax", "hex-negative", "hex-toolarge"} \cup {"asm-" \o p : p \in Passes}
+OutTrouble == {"out-nodir", "lab-nodir"}     \* -o / -l name a file in a directory that does not exist
+Trouble == {"none", "missing-input", "bad-incdir", "hex-syntax", "hex-negative", "hex-toolarge"} \cup {"asm-" \o p : p \in Passes} \cup OutTrouble
 HexTrouble == {"hex-syntax", "hex-negative", "hex-toolarge"}
 Files == {"out", "lab", "hex"}
 
@@ -29,6 +32,7 @@ Init ==
         v \in BOOLEAN, defs \in BOOLEAN :
         /\ (t \in HexTrouble => h) /\ (t = "bad-incdir" => i) /\ (t = "asm-compress" => c)
         /\ (~l => "lab" \notin pre) /\ (~h => "hex" \notin pre)
+        /\ (t = "out-nodir" => ~defout /\ "out" \notin pre /\ "hex" \notin pre) /\ (t = "lab-nodir" => l /\ "lab" \notin pre)
         \* -v (log to stdout) and --include-definitions (bundled chip definitions on the search path) change no file effect;
         \* they are only explored together with the plain option set to keep the space small
         /\ ((v \/ defs) => (~i /\ defout /\ pre = Files \cap (IF l THEN Files ELSE Files \ {"lab"}) \cap (IF h THEN Files ELSE Files \ {"hex"})))
@@ -45,14 +49,15 @@ CheckInput == phase = "input" /\ IF sc.trouble = "missing-input" THEN Fail(1) EL
 CheckIncludeDirs == phase = "incdirs" /\ IF sc.trouble = "bad-incdir" THEN Fail(1) ELSE Step("hexparse")
 ParseHexOffset == phase = "hexparse" /\ IF sc.trouble = "hex-syntax" /\ ~Dev_LateHexCheck THEN Fail(1) ELSE Step("assemble")
 Assemble == phase = "assemble" /\ IF \E p \in Passes : sc.trouble = "asm-" \o p THEN Fail(1) ELSE Step("hexrange")
-CheckHexRange == phase = "hexrange" /\ IF sc.trouble \in {"hex-negative", "hex-toolarge"} /\ ~Dev_LateHexCheck THEN Fail(1) ELSE Step("labels")
-WriteLabels == phase = "labels" /\ IF sc.labels THEN Write("lab", "binary") ELSE Step("binary")
-WriteBinary == phase = "binary" /\ Write("out", "hex")
+CheckHexRange == phase = "hexrange" /\ IF sc.trouble \in {"hex-negative", "hex-toolarge"} /\ ~Dev_LateHexCheck THEN Fail(1) ELSE Step("outcheck")
+CheckOutputs == phase = "outcheck" /\ IF sc.trouble \in OutTrouble /\ ~Dev_LateOutCheck THEN Fail(1) ELSE Step("labels")
+WriteLabels == phase = "labels" /\ IF ~sc.labels THEN Step("binary") ELSE IF sc.trouble = "lab-nodir" THEN Fail(1) ELSE Write("lab", "binary")
+WriteBinary == phase = "binary" /\ IF sc.trouble = "out-nodir" THEN Fail(1) ELSE Write("out", "hex")
 WriteHex == phase = "hex" /\
   IF ~sc.hex THEN phase' = "done" /\ exit' = 0 /\ UNCHANGED <<sc, fs, effects>>
   ELSE IF sc.trouble \in HexTrouble THEN Fail(1)                        \* only reachable with Dev_LateHexCheck
   ELSE phase' = "done" /\ exit' = 0 /\ fs' = [fs EXCEPT !["hex"] = "new"] /\ effects' = Append(effects, "hex") /\ sc' = sc
-Next == ParseArgs \/ CheckInput \/ CheckIncludeDirs \/ ParseHexOffset \/ Assemble \/ CheckHexRange \/ WriteLabels \/ WriteBinary \/ WriteHex
+Next == ParseArgs \/ CheckInput \/ CheckIncludeDirs \/ ParseHexOffset \/ Assemble \/ CheckHexRange \/ CheckOutputs \/ WriteLabels \/ WriteBinary \/ WriteHex
 Spec == Init /\ [][Next]_vars
 
 Pre(f) == IF f \in sc.pre THEN "old" ELSE "absent"
